@@ -347,6 +347,114 @@ def rule_parseerr(ctx, R):
                       b.loc(i), witness=["bb%d %s" % (x, b.loc(x)) for x in p][:8])
 
 
+def option_switch(b, starts, root_local):
+    """in the blocks `starts`: a switch on the discriminant of a place rooted at root_local
+    (the Option inside Ok); returns (bb, none_target, some_target) or None"""
+    for x in starts:
+        t = b.term(x)
+        if t["k"] != "switch":
+            continue
+        dl = op_local(t["d"])
+        for st in b.stmts(x):
+            if st["k"] == "=" and st["l"]["l"] == dl and st["r"]["k"] == "discr" and st["r"]["p"]["l"] == root_local and st["r"]["p"]["p"]:
+                ts = dict(t["ts"])
+                return x, ts.get(0), ts.get(1, t["o"])
+    return None
+
+
+def data_gated_region(ctx, b):
+    """blocks that only execute when Connection::read reported new data (Ok(true))"""
+    reg = set()
+    for i, t in b.calls():
+        if callee(t) != "network::connection::Connection::read":
+            continue
+        rs = shared.result_switch(b, i)
+        if not rs:
+            continue
+        rl = t["d"]["l"]
+        for x in rs["ok"]:
+            tt = b.term(x)
+            if tt["k"] == "switch" and op_place(tt["d"]) is not None and op_place(tt["d"])["l"] == rl:
+                ts = dict(tt["ts"])
+                if 0 in ts:
+                    reg |= cfg.edge_dom_set(b, x, tt["o"])
+    return reg
+
+
+def rule_parse_drain(ctx, R):
+    """no complete frame is left behind in the parser: the loop around Connection::parse_frame is
+    left only after parse_frame itself reported `incomplete` (Ok(None)) or an error in the same
+    iteration -- never before the call (a counter / budget test) and never from the arm that just
+    received a frame -- unless some parse_frame site also runs when no new bytes arrived (frames
+    are only parsed when read() reported data, so a frame left in the buffer would wait for the
+    client's next bytes: missing reply now, shifted replies later)."""
+    sites = []
+    for fn, b in ctx.prog.bodies.items():
+        if "::tests::" in fn:
+            continue
+        for i, t in b.calls():
+            if callee(t) == "network::connection::Connection::parse_frame":
+                sites.append((fn, b, i))
+    R.floor("parse_frame_call_sites", len(sites))
+    ungated = []
+    for fn, b, i in sites:
+        if i not in data_gated_region(ctx, b):
+            ungated.append(fn)
+    for fn, b, i in sites:
+        lps = [(h, body) for h, body in cfg.loops(b).items() if i in body]
+        if not lps:
+            R.inst(fn, "parse_frame-drain", {"loop": None})
+            if not ungated:
+                R.finding(fn, "parse_frame:not-in-a-drain-loop",
+                          "parse_frame (line %d) is not called in a loop: at most one frame is taken per read although a read can deliver many pipelined commands" % b.bb_line(i), b.loc(i))
+            continue
+        head, body = min(lps, key=lambda hb: len(hb[1]))
+        rs = shared.result_switch(b, i)
+        some_reg = set()
+        if rs:
+            osw = option_switch(b, rs["ok"], b.term(i)["d"]["l"])
+            if osw:
+                some_reg = cfg.edge_dom_set(b, osw[0], osw[2])
+        inner_back = cfg.back_edges(b)
+        # blocks of this iteration reachable from the head without passing the call
+        pre = set(); st = [head]
+        while st:
+            x = st.pop()
+            if x in pre or x not in body:
+                continue
+            pre.add(x)
+            if x == i:
+                continue
+            for y in b.succs(x):
+                if (x, y) in inner_back:
+                    continue
+                st.append(y)
+        pre.discard(i)
+        bad = []
+        nexit = 0
+        for x in sorted(body):
+            for y in b.succs(x):
+                if y in body or b.term(y)["k"] == "unreachable":
+                    continue
+                nexit += 1
+                if x in pre:
+                    bad.append((x, "before-parse"))
+                elif x in some_reg:
+                    bad.append((x, "after-frame"))
+        R.inst(fn, "parse_frame-drain", {"function": fn, "loop_head": b.loc(head), "exits": nexit, "frame_arm_blocks": len(some_reg),
+                                         "unjustified_exits": len(bad), "parse_sites_not_gated_on_new_data": len(ungated)})
+        if nexit == 0 or not some_reg:
+            R.broken.append("parse loop of %s: exits %d, frame arm %d blocks (shape not recognised)" % (fn, nexit, len(some_reg)))
+            continue
+        if bad and not ungated:
+            kinds = sorted({k for _, k in bad})
+            for k in kinds:
+                x = [x_ for x_, k_ in bad if k_ == k][0]
+                R.finding(fn, "parse-loop:exit-%s" % k,
+                          "the loop draining the parser can be left %s (line %d) although parse_frame has not reported an incomplete buffer; frames are parsed only when read() reports new bytes, so complete commands stay unanswered until the client sends more, and every later reply is shifted" % (
+                              "before parse_frame is consulted" if k == "before-parse" else "right after a frame was taken", b.bb_line(x)), b.loc(x))
+
+
 def rule_parseerr_close(ctx, R):
     """consumer side: where queued items of type Result<RespFrame, FerrousError> are consumed, the
     Err edge pushes an error reply and stores `true` into a flag that guards a `Closing` store."""
